@@ -452,6 +452,26 @@ impl Gen<'_> {
     }
 
     /// Produces the next step for the given state. Always returns something applicable.
+    fn step_ex(&mut self, files: &[FileState], last: bool, broken: bool, good: Option<&Vec<String>>) -> Step {
+        // a project that no longer compiles is brought back to its last error-free contents with some
+        // probability, so that long histories keep producing Sierra
+        if let (true, Some(g)) = (broken, good) {
+            if self.rng.below(100) < 35 {
+                let sp: Vec<Splice> = files
+                    .iter()
+                    .enumerate()
+                    .filter(|(i, f)| f.cur() != g[*i])
+                    .map(|(i, f)| Splice { file: i, start: 0, end: f.cur().len(), text: g[i].clone() })
+                    .collect();
+                if !sp.is_empty() {
+                    let query = if last { self.rng.below(2) as u8 } else { self.rng.below(2) as u8 };
+                    return Step { kind: "repair:restore-project".into(), action: Action::Edit(sp), query, walk: self.rng.below(3) == 0 };
+                }
+            }
+        }
+        self.step(files, last)
+    }
+
     fn step(&mut self, files: &[FileState], last: bool) -> Step {
         let query = if last {
             self.rng.below(2) as u8
@@ -843,9 +863,11 @@ fn run_history(
         println!("initial: {} diagnostics lines, {} sierra lines", d0.lines().count(), s0.lines().count());
     }
     let mut done: Vec<Step> = vec![];
+    let mut broken = d0.contains("error");
+    let mut last_good: Option<Vec<String>> = if broken { None } else { Some(files.iter().map(|f| f.cur().to_string()).collect()) };
     for i in 0..n {
         let step = match generator.as_mut() {
-            Some(g) => g.step(&files, i + 1 == n),
+            Some(g) => g.step_ex(&files, i + 1 == n, broken, last_good.as_ref()),
             None => match recorded.get(i) {
                 Some(s) => s.clone(),
                 None => break,
@@ -934,6 +956,10 @@ fn run_history(
         }
         stats.outputs.insert(fnv(&fd) ^ fnv(&fs).rotate_left(17));
         if want_diag {
+            broken = fd.contains("error");
+            if !broken {
+                last_good = Some(files.iter().map(|f| f.cur().to_string()).collect());
+            }
             stats.diag_compared += 1;
             if fd.lines().count() > 1 {
                 stats.steps_with_diagnostics += 1;
